@@ -90,6 +90,10 @@ def checkC12 (c : Ctx) : List String :=
       | some e, some a => a.length != e.fileLength
       | _, _ => true
     | _ => false)
+    -- an image that received bytes from a write that then failed (disk full) has been written too
+    || c.req.partialPaths.any (fun p => match c.entryAt p, c.afterOf p with
+      | some e, some a => a.length != e.fileLength
+      | _, _ => true)
   let shared := c.table.any (fun e => !e.isPad && c.table.any (fun f => !f.isPad && f.infoHash != e.infoHash && f.fullTarget == e.fullTarget))
   let twoFiles := c.table.any (fun e => !e.isPad && c.table.any (fun f => !f.isPad && f.id != e.id && f.fullTarget == e.fullTarget)
       && c.obs.ops.any (fun o => o.kind.mutating && o.path == e.fullTarget))
